@@ -87,17 +87,18 @@ func main() {
 	}
 
 	if !r.Thorough() {
+		plan.CorpusDirs = pdiff.CoreCorpusDirs
 		plan.ComboModes = []string{"dynamic"}
 		plan.AllModes = map[string]bool{}
 
-		for _, c := range []pdiff.Config{{Opt: 2}, {Reg: 1}, {Fold: 1}, {Cache: 1}, {Opt: 2, Reg: 1, Fold: 1, Cache: 1}} {
+		for _, c := range []pdiff.Config{{Opt: 2}, {Reg: 1}, {Fold: 1}, {Cache: 1}, {Opt: 2, Fold: 1}, {Opt: 2, Reg: 1, Fold: 1, Cache: 1}} {
 			plan.AllModes[c.Label()] = true
 		}
 	}
 
-	r.Rule(fmt.Sprintf("programs: every statement form (16 assignment/increment shapes, comparisons, constant expressions, loops, package constants, globals, closures, try/catch, collections, structs, strings, dynamic typing, control flow, scopes, aborting programs) over every numeric type and the listed initial values/constants%s; each program x %d configurations (optimizer 0-3 x registers/constfold/globalcache %s) x type modes against the baseline (optimizer 0, all three off); plus every test block of tests/**.ego under %d configurations x 3 modes. distinct = (mode, program) that produces output or an error under the baseline, and (mode, corpus test block) stable in two baseline runs",
+	r.Rule(fmt.Sprintf("programs: every statement form (16 assignment/increment shapes, comparisons, constant expressions, loops, package constants, globals, closures, try/catch, collections, structs, strings, dynamic typing, control flow, scopes, aborting programs) over every numeric type and the listed initial values/constants%s; each program x %d configurations (optimizer 0-3 x registers/constfold/globalcache %s) x type modes against the baseline (optimizer 0, all three off); plus every test block of the tests/**.ego corpus (quick: the 13 language-core directories; thorough: all but ai/server/sql/tables) under %d configurations. distinct = (mode, program) that produces output or an error under the baseline, and (mode, corpus test block) stable in two baseline runs",
 		map[bool]string{false: "", true: " and every ordered pair of statement forms on one variable"}[r.Thorough()],
-		len(all), map[bool]string{false: "as single flips: in all 3 modes optimizer 2, each switch on alone, everything on; in dynamic mode optimizer 1 and 3, optimizer 2 with registers / with constfold, all switches on at level 0, symbol allocation 16 and 1024 at two corners", true: "in all 8 combinations x symbol allocation {default,16,1024}"}[r.Thorough()], len(corpus)))
+		len(all), map[bool]string{false: "as single flips: in all 3 modes optimizer 2, each switch on alone, optimizer 2 with constfold, everything on; in dynamic mode optimizer 1 and 3, optimizer 2 with registers, all switches on at level 0, symbol allocation 16 and 1024 at two corners", true: "in all 8 combinations x symbol allocation {default,16,1024}"}[r.Thorough()], len(corpus)))
 	r.Assume("the batch worker repeats ego's main() in one process per configuration; state leaking between its items can hide a difference but cannot raise one, because every disagreement is re-run in fresh `ego run` processes (twice per side) before it is reported",
 		"error messages are compared with source line numbers normalised",
 		"corpus test blocks whose text differs between two baseline runs (timings, ports, environment) are not compared; tests/{ai,server,sql,tables} are not run")
